@@ -231,15 +231,15 @@ def ex_transplant(rng):
     """values moving between containers: a member of an object / an element of an array is duplicated while it is still
     inside its container (JsonValue!DuplicateSub) and the duplicate is added to the other container or to the same one, read
     back, removed again; whole containers are duplicated into each other; every step is followed by observations of both"""
-    ops = ["RESET", "NEW 0 obj", "NEW 2 arr"]
+    ops = ["RESET", "NEW 0 obj", "NEW 2 arr", "NEW 5 obj"]        # 5: a second object, for members that move under another spelling of their key
     keys = pick_keys(rng, rng.randint(2, 4))
-    present, size = [], 0
+    present, size, moved = [], 0, []
     for k in keys[: rng.randint(1, len(keys))]:
-        build_api(rng, rand_tree(rng, rng.choice([0, 0, 1]), [3]), [1, 4, 5], ops)
+        build_api(rng, rand_tree(rng, rng.choice([0, 0, 1]), [3]), [1, 4], ops)
         ops.append("ADDOBJ 0 %s 1" % hx(k))
         present.append(k)
     for _ in range(rng.randint(1, 3)):
-        build_api(rng, rand_tree(rng, rng.choice([0, 0, 1]), [3]), [1, 4, 5], ops)
+        build_api(rng, rand_tree(rng, rng.choice([0, 0, 1]), [3]), [1, 4], ops)
         ops.append("ADDARR 2 1")
         size += 1
     fresh = 0
@@ -265,6 +265,13 @@ def ex_transplant(rng):
             else:
                 ops += ["ADDARR 2 3", "SIZE 2", "GETARR 2 %d" % size]
                 size += 1
+        elif r < 0.86 and present:                               # object member -> the second object, under its own key, another
+            k = rng.choice(present)                              # spelling of it (letter case) or an unrelated key
+            nk = rng.choice([k, k.swapcase(), k.upper(), k.lower(), b"z" + k])
+            if nk not in moved and nk.lower() not in [m.lower() for m in moved]:
+                ops += ["DUPOBJ 0 %s 3" % hx(k), "ADDOBJ 5 %s 3" % hx(nk), "GETOBJ 5 %s" % hx(nk), "PRINT 5 %d 0 0" % rng.choice([0, 1]),
+                        "PARSELAST 6", "RT 5 6", "CMP 5 6", "DESTROY 6"]
+                moved.append(nk)
         elif r < 0.9:                                            # a whole container into the other one
             if rng.random() < 0.5:
                 ops += ["DUP 0 3", "ADDARR 2 3", "SIZE 2", "GETARR 2 %d" % size]
